@@ -179,9 +179,12 @@ deriving DecidableEq, Repr
 
 def startsWith (pre s : Bytes) : Bool := s.take pre.length == pre
 
-/-- classify one response line (without CRLF; literals already spliced out); none = malformed -/
+/-- classify one response line (without CRLF; literals already spliced out); none = malformed.
+    A line that ends inside a quoted string is not a whole response: quoted strings cannot contain
+    CR or LF (RFC 9051 §9 QUOTED-CHAR), so the CRLF that ended it was inside one. NUL never occurs. -/
 def classify (line : Bytes) : Option Reply :=
-  if line.any (fun c => c == 13 || c == 10) then none
+  if line.any (fun c => c == 13 || c == 10 || c == 0) then none
+  else if quotePhase false line then none
   else match line with
   | 43 :: 32 :: _ => some .cont
   | 42 :: 32 :: r => if startsWith [66, 89, 69, 32] r then some .bye else if r.isEmpty then none else some .untagged
